@@ -200,7 +200,11 @@ func rulePositionNeedsSpatial(c *Ctx) {
 			return fgs[body]
 		}
 		spatialAt := func(fg *FlowGraph, l Loc, e ast.Expr) (bool, string) {
-			for _, f := range fg.DominatingFacts(l) {
+			facts := fg.DominatingFacts(l)
+			if l.Node != nil {
+				facts = append(facts, shortCircuitFacts(c.Program, l.Node)...)
+			}
+			for _, f := range facts {
 				if f.Neg {
 					continue
 				}
@@ -276,6 +280,7 @@ func rulePositionNeedsSpatial(c *Ctx) {
 			l := fg.LocOfOuter(call)
 			okk, why := false, ""
 			if l.Valid() {
+				l.Node = call // the facts inside the condition the call stands in count as well
 				okk, why = spatialAt(fg, l, e)
 			}
 			if !okk && lit != nil {
